@@ -382,6 +382,44 @@ def job_histories(asc, ext, first_op, maxlen):
     return recs
 
 
+def _large_roundtrip(asc, ext, shape):
+    import logging
+    import shutil
+    import tempfile
+    import setigen as stg
+    logging.disable(logging.CRITICAL)
+    T, Fc = shape
+    tmp = tempfile.mkdtemp(prefix='c03L_', dir='/var/tmp')
+    try:
+        fr = stg.Frame(fchans=Fc, tchans=T, df=2.0, dt=1.0, fch1=1.0e9, ascending=asc, t_start=1.7e9, source_name='SRC', seed=0)
+        fr.data = (np.arange(T)[:, None] * 1024.0 + (np.arange(Fc)[None, :] % 1000) + 1.0)       # exact in float32, every row distinct
+        return check_roundtrip(stg, fr, ext, tmp, 'L')
+    except BaseException as e:
+        return [f"raised {type(e).__name__}: {e}"]
+    finally:
+        shutil.rmtree(tmp, ignore_errors=True)
+
+
+LARGE = (17, 70001)          # more than 2**20 samples, odd sizes: block- or slab-wise conversions must not lose a remainder
+
+
+def job_large_frame(asc, ext):
+    """one frame of more than a million samples (odd row and column counts) through the real writer and readers"""
+    recs = []
+    probs = _large_roundtrip(asc, ext, LARGE)
+    name = f"C03:large-frame:{(asc, ext)}"
+    r, _ = core.check([RV(len(probs)) != 0])
+    recs.append(q(name, r, trivial=True, shape=str(LARGE), detail=str(probs[:2])))
+    if probs:
+        recs.append(cex('C03:large-frame', f"a {LARGE} frame, {ext} round trip: {probs[:2]}", dict(fn='large', asc=asc, ext=ext), name=name))
+    return recs
+
+
+def replay_large(p):
+    probs = _large_roundtrip(p['asc'], p['ext'], LARGE)
+    return bool(probs), f"{LARGE} frame, {p['ext']}: {probs[:2]}" if probs else 'large frame round trip ok'
+
+
 def job_subband_files(asc, ext):
     """real files: load a channel window of a saved frame (by file name + f_start/f_stop and through a blimpy Waterfall),
     then save and reload it"""
@@ -669,7 +707,7 @@ def replay_tiny(p):
     return bool(bad), bad[0] if bad else 'tiny frames round-trip'
 
 
-REPLAYS = {'history': replay_history, 'helpers': replay_helpers, 'subband': replay_subband, 'tiny': replay_tiny, 'loaded': replay_loaded}
+REPLAYS = {'large': replay_large, 'history': replay_history, 'helpers': replay_helpers, 'subband': replay_subband, 'tiny': replay_tiny, 'loaded': replay_loaded}
 
 
 def main():
@@ -695,6 +733,7 @@ def main():
         for ext in ('fil', 'h5'):
             jobs.append(('job_subband_files', (asc, ext)))
             jobs.append(('job_histories', (asc, ext, None, 1)))
+            jobs.append(('job_large_frame', (asc, ext)))
             for op in OPS:
                 jobs.append(('job_histories', (asc, ext, op, 2 if not ck.thorough else 3)))
     for (nchans, nints) in ((1, 1), (7, 3), (16, 16)) + (((64, 8),) if ck.thorough else ()):
